@@ -131,7 +131,7 @@ func (g *gm) mgmtActions(withGC, withRestart bool) map[string]func(*rapid.T) {
 				t.Skip("no dataset / rare")
 			}
 			g.applyGCDel(Op{K: "gcdel", Name: rapid.SampledFrom(g.live()).Draw(t, "name"),
-				ID: rapid.SampledFrom([]string{"gc.afterEntities", "gc.afterOutgoing", "gc.afterIncoming"}).Draw(t, "point")})
+				ID: rapid.SampledFrom([]string{"gc.afterEntities", "gc.afterOutgoing", "gc.afterIncoming", "gc.storeObject"}).Draw(t, "point")})
 		}
 	}
 	if withRestart {
